@@ -11,8 +11,8 @@ from ..kernel import HarnessError
 
 PID = "C15"
 LEVEL = "exploration"
-RULE = ("complete matrix: every text-bearing position of a reference document (27 positions: titles, summaries, descriptions of every kind, enum values, string "
-        "defaults, property / parameter / header names, tags, discriminator values, media types, examples) x every hostile payload of a 31-entry dictionary (quotes, "
+RULE = ("complete matrix: every text-bearing position of a reference document (30 positions: titles, summaries, descriptions of every kind, enum values, string "
+        "defaults, property / parameter / header names, tags, discriminator values, media types, examples) x every hostile payload of a 38-entry dictionary (quotes, "
         "triple quotes, backslashes, trailing backslash, LF, CR, CRLF, escaped triple quote, #, braces, %s, tab, form feed, NEL, LS, control char, non-ASCII, emoji, "
         "outer spaces, keyword, 300-char line); each document is generated and every emitted file is parsed: the AST skeleton (node types only; constants and "
         "identifiers erased) must equal the one of the same document with the benign payload, and literals that carry meaning must evaluate to the original "
@@ -22,7 +22,7 @@ ASSUMPTIONS = [
     "skeleton = per emitted file the tree of ast node class names; file names are ignored for positions that legitimately rename files (tags)",
     "name positions whose payload has no identifier characters at all are name-derivation cases (C20) and are reported under their own clause here",
 ]
-BOUND = {"quick": "27 positions x 31 payloads = 837 documents", "thorough": "+ every string of length<=3 over {\", \\\\, LF, a} at every position (2268) + all position pairs for 4 payloads"}
+BOUND = {"quick": "30 positions x 38 payloads = 1140 documents", "thorough": "+ every string of length<=3 over {\", \\\\, LF, a} at every position (2268) + all position pairs for 4 payloads"}
 CHUNK = 4
 
 PAYLOADS = {
@@ -33,6 +33,8 @@ PAYLOADS = {
     # length x special character interplay (truncation / wrapping code paths)
     "long-lf": "a" + "x" * 60 + "\n" + "y" * 60 + "b", "long-cr": "a" + "x" * 60 + "\r" + "y" * 60 + "b",
     "long-lf-code": "a" + "x" * 40 + "\n    is_admin: bool = True  # " + "y" * 70,
+    "quad-dquote": 'a' + '"' * 4 + 'b', "five-dquote": 'a' + '"' * 5 + 'b', "six-dquote": 'a' + '"' * 6 + 'b', "seven-dquote": 'a' + '"' * 7 + 'b',
+    "quote-start": '"ab', "quad-squote": "a" + "'" * 4 + "b", "docstring-in-docstring": 'see ' + '"' * 4 + 'opaque" cursor' + '"' * 3,
     "long-triple": "a" + "x" * 150 + '"""' + "y" * 150 + "b", "long-backslash-end": "a" + "x" * 120 + "\\",
 }
 BENIGN = "atxtb"
@@ -40,6 +42,7 @@ BENIGN = "atxtb"
 POSITIONS = ["info.title", "info.description", "op.summary", "op.description", "param.description", "response.description", "schema.description",
              "property.description", "enum.value", "string.default", "property.name", "query.name", "header.name", "tag", "discriminator.value",
              "media.type", "schema.title", "requestBody.description", "enum.description", "items.description", "example", "tag.description",
+             "alias-union.description", "alias-array.description", "alias-scalar.description",
              "server.description", "externalDocs.description", "inline-enum.value", "pathitem-param.description", "error-response.description"]
 NAME_POSITIONS = {"property.name", "query.name", "header.name", "tag"}
 HEADER_SAFE = {"header.name"}
@@ -101,7 +104,9 @@ def build(texts):
             "Color": {"type": "string", "description": t("enum.description"), "enum": ["red", t("enum.value"), "blue"]},
             "Cat": {"type": "object", "required": ["kind"], "properties": {"kind": {"type": "string"}, "lives": {"type": "integer"}}},
             "Dog": {"type": "object", "required": ["kind"], "properties": {"kind": {"type": "string"}, "bark": {"type": "boolean"}}},
-            "Animal": {"oneOf": [R("Cat"), R("Dog")], "discriminator": {"propertyName": "kind", "mapping": {
+            "Names": {"type": "array", "description": t("alias-array.description"), "items": {"type": "string"}},
+            "Count": {"type": "integer", "description": t("alias-scalar.description")},
+            "Animal": {"description": t("alias-union.description"), "oneOf": [R("Cat"), R("Dog")], "discriminator": {"propertyName": "kind", "mapping": {
                 t("discriminator.value"): "#/components/schemas/Cat", "dog": "#/components/schemas/Dog"}}},
         }},
     }
